@@ -470,7 +470,8 @@ const verifC34Unit = time.Millisecond
 
 // VerifC34GatePreempt: the check-and-set gate. Start state: free, or held by a party that
 // releases it at some moment, or held throughout. Every other party tries to enter once
-// (Begin, or BeginWithRetry with 2 retries), works inside, and leaves.
+// (Begin; with two parties the first one - thorough tier: either - possibly BeginWithRetry with
+// 2 retries), works inside, and leaves.
 func VerifC34GatePreempt() {
 	verifPanicsAreViolations()
 	c := NewCheckAndSet()
@@ -494,7 +495,7 @@ func VerifC34GatePreempt() {
 	entered := 0
 	for i := 0; i < nW; i++ {
 		i := i
-		retry := verifChoice(verifName("retry", i), 2) == 1
+		retry := (i == 0 || verifTier() == 1) && nW == 2 && verifChoice(verifName("retry", i), 2) == 1
 		go func() {
 			may0, claims0 := may, claims
 			may++
@@ -798,13 +799,19 @@ func VerifC34ReadyTargetPreempt() {
 	}
 	pre := verifChoice("listed", 2)
 	if pre == 1 {
-		t := uint64(3 + verifTier()*verifChoice("t-listed", 2))
+		t := uint64(3)
+		if verifTier() == 1 && nP == 2 {
+			t = uint64(3 + verifChoice("t-listed", 2))
+		}
 		targets[0], chans[0] = t, r.Subscribe(t)
 		nSubs = 1
 		verifAssert("C34-rt-subscribe-above-current-waits", !verifIsClosed(chans[0]) && r.Len() == 1)
 	}
 	// the parties are interchangeable: their kinds are chosen as a non-decreasing tuple
-	nk := 4 + 2*verifTier()
+	nk := 4
+	if verifTier() == 1 && nP == 2 {
+		nk = 6
+	}
 	var mixes [][3]int
 	for k0 := 0; k0 < nk; k0++ {
 		for k1 := k0; k1 < nk; k1++ {
